@@ -1,6 +1,7 @@
 import TV.Model.LockedObject
 import TV.Model.StackConc
 import TV.Proofs.GoHeap
+import TV.Proofs.GenericStack
 /-!
 # The concurrent GenericStack: conservation invariant (C11c), core-only
 -/
@@ -376,5 +377,48 @@ theorem sinv_reach {c : CSt (Stack Nat) Op Ret Nat}
   induction h with
   | init => exact sinv_init
   | step a _ hs ih => exact sinv_step ih hs
+
+/-! ### the heap order survives every interleaving (so sequential Pops afterwards come out in id order) -/
+
+theorem heap_step {c c' : CSt (Stack Nat) Op Ret Nat} {a : CAct Op}
+    (hh : IsHeap lessId c.shared.entries) (hs : CStep impl c a c') : IsHeap lessId c'.shared.entries := by
+  cases hs with
+  | call => exact hh
+  | ret => exact hh
+  | secNext t op pc loc cpos s' pc' loc' _ hsec =>
+    obtain ⟨v, _, _, h3, _, _⟩ := secNext_cases hsec
+    subst h3; exact hh
+  | secDone t op pc loc cpos s' r _ hsec =>
+    rcases secDone_cases hsec with ⟨v, _, _, h3, _⟩ | ⟨e, rest, _, hp, h3, _⟩ | ⟨h3, _⟩
+    · subst h3; exact push_isHeap lessId_strictWeak _ _ hh
+    · subst h3
+      have hne : c.shared.entries ≠ [] := by intro h0; rw [h0] at hp; simp [GoHeap.pop] at hp
+      obtain ⟨r', h1, h2, _, _⟩ := pop_spec lessId_strictWeak c.shared.entries hh hne
+      rw [h1] at hp
+      simp only [Option.some.injEq, Prod.mk.injEq] at hp
+      obtain ⟨_, rfl⟩ := hp
+      exact h2
+    · subst h3; exact hh
+
+theorem heap_reach {c : CSt (Stack Nat) Op Ret Nat}
+    (h : CReach impl (GenericStack.new : Stack Nat) c) : IsHeap lessId c.shared.entries := by
+  induction h with
+  | init => intro i h0 hi; simp [cinit, GenericStack.new, GoHeap.init, initLoop] at hi
+  | step a _ hs ih => exact heap_step ih hs
+
+/-- whatever Pop removes in a reachable state carries the smallest id on the stack. -/
+theorem pop_min_reach {c : CSt (Stack Nat) Op Ret Nat}
+    (h : CReach impl (GenericStack.new : Stack Nat) c) {e : Nat × Nat} {rest : List (Nat × Nat)}
+    (hp : GoHeap.pop lessId c.shared.entries = some (e, rest)) : ∀ x ∈ c.shared.entries, e.1 ≤ x.1 := by
+  have hh := heap_reach h
+  have hne : c.shared.entries ≠ [] := by intro h0; rw [h0] at hp; simp [GoHeap.pop] at hp
+  obtain ⟨r', h1, _, _, h4⟩ := pop_spec lessId_strictWeak c.shared.entries hh hne
+  rw [h1] at hp
+  simp only [Option.some.injEq, Prod.mk.injEq] at hp
+  obtain ⟨rfl, _⟩ := hp
+  intro x hx
+  have := h4 x hx
+  simp only [lessId, decide_eq_false_iff_not, Nat.not_lt] at this
+  exact this
 
 end TV.StackConc
